@@ -4,7 +4,9 @@ from mapgen import *
 
 PROP = "C06"
 CONSTS = ["B64_CHARS", "B64"]
-THEOREMS = {"SmVerif.Props.C06": ["SmVerif.C06.c06_fault_rejected", "SmVerif.C06.c06_foreign_byte", "SmVerif.C06.c06_truncated", "SmVerif.C06.c06_too_long", "SmVerif.C06.c06_arity", "SmVerif.C06.c06_ok_resolves"]}
+THEOREMS = {"SmVerif.Props.C06": ["SmVerif.C06.c06_fault_rejected", "SmVerif.C06.c06_foreign_byte", "SmVerif.C06.c06_truncated", "SmVerif.C06.c06_too_long", "SmVerif.C06.c06_arity", "SmVerif.C06.c06_ok_resolves"],
+            # "decoding fails with an error", never a (modelled) panic or runaway loop
+            "SmVerif.Props.C05": ["SmVerif.C05.c05_decode_safe", "SmVerif.C05.c05_parseVlq_safe"]}
 TRUSTED = BASE_TRUST + ["model: lean/SmVerif/Model/Mappings.lean mirrors the token loop of decode_regular (decoder.rs) and parse_vlq_segment_into (vlq.rs)",
                         "serde_json delivers the `mappings` string, `sources` and `names` arrays unchanged (JSON layer trusted, exercised)"]
 ASSUMPTIONS = ["earlier faults may win: the theorems say *an* error is returned, not which"]
